@@ -194,7 +194,57 @@ def oracle(ctx, factor, seeds):
             o.samples.append({'case': name[:200], 'kernel': str(impl[1])[:200]})
         if ok is False:
             o.fail(key or ('value:' + name), 'the kernel of %s is %s, not the classical Sobolev integrand' % (name, impl[1]))
+    mapped_norm_cases(ctx, o, (25 if ctx.thorough else 7) * factor)
     return o
+
+
+def mapped_norm_cases(ctx, o, n):
+    """the two-step route named in C03/C04: the evaluated norm kernel pulled back to logical
+    coordinates, LogicalExpr(TerminalExpr(Norm(e, D), D)[0], D), on orientation preserving and
+    reversing mappings: it must be (Sobolev integrand at F(x̂)) · sqrt(det(JᵀJ)) = · |det J|
+    (added after seed C11-2)"""
+    from sympde.expr import Norm, SemiNorm, TerminalExpr
+    from sympde.topology.mapping import LogicalExpr
+    from harness.mapenv import MEnv, MapInst, pulled_back_fields
+    from harness.inst import PHYS, LOGI
+    rng = ctx.rng
+    for i in range(n):
+        dim = rng.choice([1, 2, 2, 3])
+        mt = ['polyneg', 'poly', 'polyneg', 'affine', 'sym'][i % 5]
+        env = MEnv(rng, dim, mt, tag='c11m', kinds=('h1',))
+        u = env.sf['h1'][0]
+        kind = rng.choice(['l2', 'h1'])
+        cls = rng.choice([Norm, SemiNorm]) if kind == 'h1' else Norm
+        e = u - env.coords[0] ** 2
+        name = 'LogicalExpr(TerminalExpr(%s(%s, kind=%s))) on a %s mapping, dim %d' % (cls.__name__, e, kind, mt, dim)
+        key = 'corpus:mapped norm kernel %s %s %dd' % (kind, mt, dim) if i < 5 else None
+        o.evaluations += 1
+        try:
+            with time_limit(60):
+                t = TerminalExpr(cls(e, env.domain, kind=kind), env.domain)
+                k = LogicalExpr(t[0], env.domain)
+                kexpr = k.expr[0] if hasattr(k.expr, 'shape') else k.expr
+                pins = Inst(rng, dim, PHYS[:dim])
+                F, cst = env.concrete(rng)
+                pins.cst = dict(cst)
+                comps = [pins.inst(e)]
+                truth = sobolev(pins, comps, kind, cls.__name__ == 'SemiNorm')
+                truth = sympy.sympify(truth).subs({PHYS[j]: F[j] for j in range(dim)}, simultaneous=True)
+                sfs, vfs, J, det = pulled_back_fields(env, pins, F)
+                truth = truth * sympy.sqrt((J.T * J).det())
+                lins = MapInst(rng, dim, F, pins.cst)
+                lins.sf, lins.vf = dict(sfs), dict(vfs)
+                got = lins.inst(kexpr)
+                ok = same_value(got, truth, LOGI[:dim], rng, numeric=True)
+        except (NotImplementedError, Timeout):
+            o.count('skipped:mapped')
+            continue
+        except Exception as ex:
+            o.fail(key or ('fail:' + name), '%s raised %s' % (name, type(ex).__name__))
+            continue
+        o.count('mapped:%s:%s' % (kind, mt))
+        if ok is False:
+            o.fail(key or ('value:' + name), 'the logical kernel of %s is %s, not (Sobolev integrand at F)·sqrt(det(JᵀJ))' % (name, str(kexpr)[:300]))
 
 
 def replay(ctx, path):
